@@ -171,13 +171,28 @@ func (u *Unit) intrinsic(fr *Frame, st *State, fn *ssa.Function, args []Val, whe
 		return u.jsonUnmarshal(fr, st, args[0], args[1], sig, where)
 
 	case "github.com/google/uuid.New":
-		return u.freshVal(sig.Results().At(0).Type(), "uuid", st.pc)
-	case "(github.com/google/uuid.UUID).String":
+		// a random (version 4) UUID: the only source of tokens that have never appeared before
+		v := u.freshVal(sig.Results().At(0).Type(), "uuid", st.pc)
+		if u.randomUUID == nil {
+			u.randomUUID = map[Val]bool{}
+		}
+		u.randomUUID[v] = true
+		return v
+	case "(github.com/google/uuid.UUID).String", "github.com/google/uuid.NewString":
+		random := name == "github.com/google/uuid.NewString" || (len(args) > 0 && u.randomUUID[args[0]])
 		s := u.fresh(SInt, "uuidstr")
 		u.fact(fmt.Sprintf("(assert (> %s 1000000))", s.S)) // distinct from "" and every literal
-		u.assume(TTrue, App(SBool, "FreshTok", s))
-		u.event(fr, st, "call uuid.String", map[string]Val{"result": &Scalar{T: s, Typ: types.Typ[types.String]}}, where)
-		return &Scalar{T: s, Typ: types.Typ[types.String], Origin: "uuid"}
+		origin := ""
+		if random {
+			u.assume(TTrue, App(SBool, "FreshTok", s))
+			origin = "uuid"
+		}
+		rb := TFalse
+		if random {
+			rb = TTrue
+		}
+		u.event(fr, st, "call uuid.String", map[string]Val{"result": &Scalar{T: s, Typ: types.Typ[types.String]}, "random": &Scalar{T: rb, Typ: types.Typ[types.Bool]}}, where)
+		return &Scalar{T: s, Typ: types.Typ[types.String], Origin: origin}
 
 	case "fmt.Errorf":
 		return u.fmtErrorf(fr, st, args, sig, where)
